@@ -3,7 +3,7 @@ package signaller
 import (
 	"crypto/sha256"
 	"fmt"
-	"math"
+	"math/bits"
 	"time"
 
 	sdk "github.com/cosmos/cosmos-sdk/types"
@@ -36,12 +36,21 @@ func isDeviated(deviationBasisPoint int64, oldPrice uint64, newPrice uint64) boo
 		return newPrice != 0
 	}
 
-	// Calculate the deviation
-	diff := math.Abs(float64(newPrice) - float64(oldPrice))
-	dev := int64((diff * 10000) / float64(oldPrice))
+	// Calculate the deviation in integer arithmetic (diff * 10000 does not fit in 64 bits for large prices, and
+	// float64 loses the exact threshold there)
+	diff := newPrice - oldPrice
+	if newPrice < oldPrice {
+		diff = oldPrice - newPrice
+	}
+	hi, lo := bits.Mul64(diff, 10000)
+	if hi >= oldPrice {
+		// the deviation in basis points does not fit in 64 bits: above any threshold
+		return true
+	}
+	dev, _ := bits.Div64(hi, lo, oldPrice)
 
 	// Check if the new price deviation is meets or exceeds the bounds
-	return deviationBasisPoint <= dev
+	return deviationBasisPoint <= 0 || uint64(deviationBasisPoint) <= dev
 }
 
 func convertPriceData(price *bothan.Price) (types.SignalPrice, error) {
